@@ -15,7 +15,7 @@ RULE = ("each case is a list of 1-6 groups x 1-5 tagged parameters (or a bare li
         "icontract snapshot/postcondition on scaled_parameters (fires on direct calls and inside the three optimizer "
         "constructors) checks structure, identity, order, carried-over keys, non-mutation (tensor version counters + bits) "
         "and storage aliasing of tensor lrs; then 1-3 real optimizer.step() calls with zero gradients check p=(1-wd)^k p0. "
-        "Non-trivial = >= 2 parameters and (extra keys or tensor lr or wd>0); distinct = layout signature. A group's params is a list, a tuple or ONE tensor; after a REFUSED call (untagged parameter) the caller's groups and lr tensors are compared as well.")
+        "Non-trivial = >= 2 parameters and (extra keys or tensor lr or wd>0); distinct = layout signature. A group's params is a list, a tuple or ONE tensor; after a REFUSED call (untagged parameter) the caller's groups and lr tensors are compared as well. A group's params may also be a one-shot iterator; optimizer-level options are also given in torch's positional spelling SGD(params, lr, momentum) / Adam(params, lr, betas).")
 ASSUMPTIONS = ["torch.optim.SGD / AdamW implement decoupled resp. coupled weight decay as documented"]
 IMPORTS = ["unit_scaling.optim", "unit_scaling.parameter"]
 REQUIRED_MONITORS = ["contract:scaled_parameters", "contract:scaled_parameters:from-optimizer-constructor", "sanitizer:tensor-lr-checked",
